@@ -1,11 +1,17 @@
 #!/bin/bash
-# development aid: apply every kept seeded change to /repo in turn, run its property's quick check, revert; one line each
-cd /verif
+# development aid: apply every kept seeded change to the repository in turn, run its property's quick check, revert;
+# one line each. Repository: $VERIF_REPO (default /repo) - in a `vp run --with-repo` snapshot pass $VP_RUN_REPO so
+# that /repo itself stays free:  vp run --with-repo -- bash -c 'sed -i "s#=> /repo#=> $VP_RUN_REPO#" harness/go.mod; VERIF_REPO=$VP_RUN_REPO ./seed_recheck.sh'
+cd "$(dirname "$0")"
+R=${VERIF_REPO:-/repo}
+export VERIF_REPO=$R GOFLAGS=-mod=mod GOPROXY=off GOSUMDB=off GOTOOLCHAIN=local
+[ "$R" != /repo ] && ./setup.sh >/dev/null
 for d in seeded/*/; do
   s=$(basename $d); id=$(python3 -c "import json;print(json.load(open('$d/meta.json'))['property'])")
-  git -C /repo apply /verif/$d/patch.diff || { echo "$s: patch does not apply"; continue; }
-  ./check $id --tier ${1:-quick} > /tmp/seedrecheck.log 2>&1; rc=$?
-  git -C /repo checkout -- .
-  echo "$s ($id): exit $rc $(grep -A1 VIOLATION /tmp/seedrecheck.log | grep kind= | sed 's/ detail=.*//' | sort | uniq -c | tr '\n' ';')"
+  git -C $R apply $PWD/$d/patch.diff || { echo "$s: patch does not apply"; continue; }
+  ./check $id --tier ${1:-quick} > /tmp/seedrecheck.$$.log 2>&1; rc=$?
+  git -C $R checkout -- .
+  echo "$s ($id): exit $rc $(grep -A1 VIOLATION /tmp/seedrecheck.$$.log | grep kind= | sed 's/ detail=.*//' | sort | uniq -c | tr '\n' ';')"
 done
-git -C /repo status --short | head -3
+rm -f /tmp/seedrecheck.$$.log
+git -C $R status --short | head -3
